@@ -14,7 +14,7 @@
 //   CR <errno> | EVW <so_error> <self 0|1> | EVE | TF | RUN | RUN1 | DOWN | HOLD | REL
 // end
 // One line per op:
-//   ok|rejected ev=.. arm=.. k=<state>/<connect_>/<channel sock:registered>/<retryDelayMs_> tm=<ms until due,..>
+//   ok|rejected t=<virtual ms> ev=.. arm=.. k=<state>/<connect_>/<channel sock:registered>/<retryDelayMs_> tm=<ms until due,..>
 //   pend=<n> socks=<o|cN|H|HcN,..> cl=<connect_>/<retry_>/<connection_ index> cs=<state/registered/fin/user refs | x,..>
 #include <errno.h>
 #include <fcntl.h>
@@ -79,7 +79,8 @@ static bool g_active = false;
 static std::deque<int> g_script;            // errno answers for ::connect
 static int g_soerr = 0;
 static bool g_self = false;
-static int64_t g_now_us = 1700000000LL * 1000000LL;
+static const int64_t kEpochUs = 1700000000LL * 1000000LL;
+static int64_t g_now_us = kEpochUs;
 static std::vector<string> g_events;
 static MutexLock g_evmutex;
 static thread_local int t_stall_at = 0;     // stall this thread at its n-th pthread_mutex_lock
@@ -493,8 +494,8 @@ static int runCase(const std::vector<string>& lines)
       cs += std::to_string(static_cast<int>(c->state_)) + "/" + (c->channel_->addedToLoop_ ? "1" : "0") + "/" + (fin ? "1" : "0") +
             "/" + ((user && user == c) ? "1" : "0");
     }
-    printf("%s ev=%s arm=%s k=%s tm=%s pend=%zu socks=%s cl=%s cs=%s\n", rejected ? "rejected" : "ok",
-           evs.empty() ? "-" : evs.c_str(), arms.empty() ? "-" : arms.c_str(), kst.c_str(), tm.empty() ? "-" : tm.c_str(),
+    printf("%s t=%lld ev=%s arm=%s k=%s tm=%s pend=%zu socks=%s cl=%s cs=%s\n", rejected ? "rejected" : "ok",
+           static_cast<long long>((g_now_us - kEpochUs) / 1000), evs.empty() ? "-" : evs.c_str(), arms.empty() ? "-" : arms.c_str(), kst.c_str(), tm.empty() ? "-" : tm.c_str(),
            loop.queueSize(), socks.empty() ? "-" : socks.c_str(), cl.c_str(), cs.empty() ? "-" : cs.c_str());
     fflush(stdout);
   }
